@@ -51,6 +51,9 @@ def run(tier: str, seed: int) -> int:
     cases = chk.generate("Gen_C18", shards=[1, 2, 3])
     obs = drive("harness.props.c18", "drive_case", cases)
     verdicts = chk.judge("Judge_C18", obs)
+    from .. import corrupt as _corrupt
+
+    chk.binding_selftest("Judge_C18", obs, verdicts, _corrupt.c18)
     by_id = {o["id"]: _pretty(o) for o in obs}
     chk.absorb(verdicts, by_id, {c["id"]: c for c in cases})
     nontrivial = len({tuple(c["text"]) for c in cases if c["kind"] != "bad" and c["p"] % 8 != 0})
